@@ -51,7 +51,7 @@ def run_job(kind, key):
             r['witness'] = dict(function=c.name)
         return dict(job=key, records=recs, paths=npaths, lib=sorted(I.used_lib))
     if kind == 'view':
-        return dict(job=key, records=pr.tree_view_obligations(I, PROP) + pr.view_lemmas(PROP))
+        return dict(job=key, records=pr.tree_view_obligations(I, PROP) + pr.view_lemmas(PROP) + pr.tree_py_records(I, PROP))
     raise CheckerError(kind)
 
 
@@ -72,7 +72,7 @@ def main(tier='quick', seed=0):
         'one rule element per inner node with its label and category text, children in order) as equality with the recursive spec encoding enc_xml(tree, 0); the json record of a node as json_of(tree) builds it (leaf: the items of the token plus cat; inner node: type, cat text, children in order) as equality with enc_json - the branch full=True is not reachable from to_string and raises AttributeError (Atom.features does not exist): outside the listed properties. Tree view Leaf | Un | Bin(head_is_left) with the attribute meanings checked against the real tree.py properties on the three shapes Tree.__init__ admits; '
         'python lists as z3 arrays with a length; the recursive calls of rec are replaced by its contract (structural induction: the induction principle is the meta-rule); '
         'len([x for x in xs if p(x)]) is axiomatised as 0 / 1 / >= 2 matching elements; lemma nleaves-positive by structural induction',
-        'assumed contracts: lxml etree.Element / SubElement / set / append build the element they are told to (lxml is not importable under the verifier); Tree.tokens lists the tokens of the leaves in order; '
+        'assumed contracts: lxml etree.Element / SubElement / set / append build the element they are told to (lxml is not importable under the verifier); '
         'the attribute copy `for k, v in token.items(): elem.set(k, v)` is recognised as a pattern and recorded as "attributes of token(tag)" (a token with a key named start / span / cat would overwrite the lf attribute: outside the model); '
         'str(int) is injective',
         'all other clauses (text layouts, category spellings, token attributes, span offsets, numbering) are decided by the BOUNDED stand-in: run-time contract decode(encode(t)) = view(t) with independent spec decoders, '
@@ -81,6 +81,6 @@ def main(tier='quick', seed=0):
     ]
     extra = dict(functions_under_contract=['depccg/printer/conll.py::_resolve_dependencies', 'depccg/printer/conll.py::_resolve_dependencies.rec',
                                            'depccg/printer/xml.py::xml_of (numbering: arbitrary sentence and tree)', 'depccg/printer/xml.py::_process_tree', 'depccg/printer/xml.py::_process_tree.rec', 'depccg/printer/my_json.py::json_of.rec',
-                                           'depccg/tree.py::Tree.is_leaf / is_unary / child / left_child / right_child / head_is_left (view lemma)'],
+                                           'depccg/tree.py::Tree.is_leaf / is_unary / child / left_child / right_child / head_is_left (view lemma)', 'depccg/tree.py::Tree.leaves / leaves.rec / __len__ / tokens'],
                  bounded_functions=['all encoders of depccg/printer', 'depccg/tools/reader.py', 'depccg/tools/ja/reader.py'])
     return c12.finish_with(PROP, tier, seed, t0, records, errors, extra, assumptions, ['printers_real.py'], level='exploration')
